@@ -758,6 +758,174 @@ def stage_rewrite_properties(chk, n):
     return {"cases": len(cases), "agree": agree, "objects_with_readonly_accepted": leaks}
 
 
+# ----------------------------------------------------------------------------------------
+# nullable / x-nullable
+# ----------------------------------------------------------------------------------------
+NSTATES = ["NAbsent", "NTrue", "NFalse"]
+PRIMS = {"PString": "string", "PInteger": "integer", "PBoolean": "boolean"}
+
+
+def gen_oas(rng, depth=0):
+    n, xn = rng.choice(NSTATES), rng.choice(NSTATES + ["NAbsent"])
+    k = rng.random()
+    if depth >= 2 or k < 0.45:
+        return ("OPrim", n, xn, rng.choice(list(PRIMS)))
+    if k < 0.65:
+        return ("OArr", n, xn, gen_oas(rng, depth + 1))
+    names = rng.sample(["a", "b", "c", "é"], rng.randint(0, 3))
+    props = [(name, gen_oas(rng, depth + 1)) for name in names]
+    return ("OObj", n, xn, props, [name for name in names if rng.random() < 0.5])
+
+
+def c_oas(t) -> str:
+    if t[0] == "OPrim":
+        return f"(OPrim {t[1]} {t[2]} {t[3]})"
+    if t[0] == "OArr":
+        return f"(OArr {t[1]} {t[2]} {c_oas(t[3])})"
+    props = clist([ctuple(cstr(k), c_oas(p)) for k, p in t[3]], "(str * oas)")
+    return f"(OObj {t[1]} {t[2]} {props} {c_strs(t[4])})"
+
+
+def oas_dict(t) -> dict:
+    d = {}
+    if t[0] == "OPrim":
+        d["type"] = PRIMS[t[3]]
+    elif t[0] == "OArr":
+        d["type"] = "array"
+        d["items"] = oas_dict(t[3])
+    else:
+        d["type"] = "object"
+        d["properties"] = {k: oas_dict(p) for k, p in t[3]}
+        if t[4]:
+            d["required"] = list(t[4])
+    for key, st in (("nullable", t[1]), ("x-nullable", t[2])):
+        if st != "NAbsent":
+            d[key] = st == "NTrue"
+    return d
+
+
+def canon_js(d):
+    """Real converted JSON Schema -> the shape of the parsed Coq js value (unknown / left-over keywords are ignored)."""
+    if not isinstance(d, dict):
+        raise Unsupported("not a schema")
+    if "$ref" in d:
+        raise Unsupported("$ref left in the generation schema")
+    if "anyOf" in d:
+        return ("JsAnyOf", [canon_js(x) for x in d["anyOf"]])
+    t = d.get("type")
+    if t == "null":
+        return "JsNull"
+    if t in PRIMS.values():
+        return ("JsPrim", {v: k for k, v in PRIMS.items()}[t])
+    if t == "array":
+        return ("JsArr", canon_js(d["items"]))
+    if t == "object":
+        return ("JsObj", [(k, canon_js(v)) for k, v in d.get("properties", {}).items()], list(d.get("required", [])))
+    raise Unsupported(f"type {t!r}")
+
+
+def canon_model_js(v):
+    v = unsym(v)
+    if v == "JsNull":
+        return v
+    if v[0] == "JsPrim":
+        return ("JsPrim", v[1])
+    if v[0] == "JsArr":
+        return ("JsArr", canon_model_js(v[1]))
+    if v[0] == "JsObj":
+        return ("JsObj", [(pstr(k), canon_model_js(p)) for k, p in v[1]], [pstr(k) for k in v[2]])
+    return ("JsAnyOf", [canon_model_js(x) for x in v[1]])
+
+
+def hoist_refs(rng, d, store, prefix, prob=0.35):
+    """Move some nested schemas (property values, items) into `store` and leave a local $ref behind."""
+    out = dict(d)
+    if "properties" in d:
+        out["properties"] = {}
+        for k, sub in d["properties"].items():
+            sub = hoist_refs(rng, sub, store, prefix, prob)
+            if rng.random() < prob and not sub.get("readOnly"):
+                name = f"S{len(store)}"
+                store[name] = sub
+                sub = {"$ref": prefix + name}
+            out["properties"][k] = sub
+    if "items" in d:
+        sub = hoist_refs(rng, d["items"], store, prefix, prob)
+        if rng.random() < prob:
+            name = f"S{len(store)}"
+            store[name] = sub
+            sub = {"$ref": prefix + name}
+        out["items"] = sub
+    return out
+
+
+def body_document(rng, body_dict, swagger2: bool):
+    store = {}
+    prefix = "#/definitions/" if swagger2 else "#/components/schemas/"
+    body = hoist_refs(rng, body_dict, store, prefix)
+    if rng.random() < 0.3:
+        store[f"S{len(store)}"] = body
+        body = {"$ref": prefix + f"S{len(store) - 1}"}
+    if swagger2:
+        raw = {"swagger": "2.0", "info": {"title": "t", "version": "1"}, "consumes": ["application/json"],
+               "paths": {"/r": {"post": {"parameters": [{"name": "p", "in": "body", "required": True, "schema": body}], "responses": {"200": {"description": "ok"}}}}}}
+        if store:
+            raw["definitions"] = store
+    else:
+        raw = {"openapi": "3.0.2", "info": {"title": "t", "version": "1"},
+               "paths": {"/r": {"post": {"requestBody": {"required": True, "content": {"application/json": {"schema": body}}}, "responses": {"200": {"description": "ok"}}}}}}
+        if store:
+            raw["components"] = {"schemas": store}
+    return raw
+
+
+def stage_nullable(chk, n):
+    """nullable / x-nullable in all three states at top level, in properties, in items and behind local $ref:
+    (1) converter.to_json_schema_recursive called directly with both keyword names, (2) the schema the pipeline really generates
+    from (operation.body[0].as_json_schema) for Open API 3.0 and 2.0 documents - both vs Model_C01.conv, structurally."""
+    import schemathesis
+
+    from schemathesis.core.transforms import deepclone
+    from schemathesis.specs.openapi.converter import to_json_schema_recursive
+
+    rng = chk.rng
+    trees = [gen_oas(rng) for _ in range(n)]
+    model = core.coq_eval(IMPORTS, [f"(conv false {c_oas(t)}, conv true {c_oas(t)})" for t in trees])
+    stats = {"trees": n, "direct_agree": 0, "pipeline_agree": 0, "pipeline_skipped": 0}
+    n_pipeline = max(40, n // 4)
+    for i, (t, (m3, m2)) in enumerate(zip(trees, model)):
+        d = oas_dict(t)
+        chk.seen({"nullable": d}, any(k in json.dumps(d) for k in ("nullable",)))
+        chk.count(f"nullable:top={t[1]}/{t[2]}")
+        expected = {False: canon_model_js(m3), True: canon_model_js(m2)}
+        ok = True
+        for use_x, name in ((False, "nullable"), (True, "x-nullable")):
+            try:
+                real = canon_js(to_json_schema_recursive(deepclone(d), name))
+            except Exception as exc:  # noqa: BLE001
+                real = f"raises {type(exc).__name__}"
+            if real != expected[use_x]:
+                ok = False
+                chk.disagree(f"to_json_schema_recursive(nullable_name={name!r}) vs Model_C01.conv", d, real, expected[use_x])
+        stats["direct_agree"] += ok
+        if i < n_pipeline:
+            swagger2 = i % 2 == 1
+            raw = body_document(rng, d, swagger2)
+            try:
+                op = schemathesis.openapi.from_dict(raw)["/r"]["POST"]
+                real = canon_js(op.body[0].as_json_schema(op))
+            except Unsupported:
+                stats["pipeline_skipped"] += 1
+                continue
+            except Exception as exc:  # noqa: BLE001
+                real = f"raises {type(exc).__name__}: {exc}"[:200]
+            if real != expected[swagger2]:
+                chk.disagree(f"generation schema of the body (Open API {'2.0' if swagger2 else '3.0'}, local $ref) vs Model_C01.conv", raw, real, expected[swagger2])
+            else:
+                stats["pipeline_agree"] += 1
+    return stats
+
+
 def satisfiable_sample(rng, ast, p, mn, mx):
     for _ in range(12):
         s = sample_match(rng, ast)
@@ -832,6 +1000,30 @@ def gen_string_schema(rng, for_header=False):
     return sch
 
 
+def spell_nullable(rng, sub, p_true=0.25, p_false=0.25):
+    """The keyword in its three states: true, an explicit false, absent."""
+    k = rng.random()
+    if k < p_true:
+        sub["nullable"] = True
+    elif k < p_true + p_false:
+        sub["nullable"] = False
+    return sub
+
+
+def gen_param_schema(rng, location):
+    k = rng.random()
+    if k < 0.7:
+        sch = gen_string_schema(rng)
+    elif k < 0.9:
+        lo = rng.choice([-5, 0, 1])
+        sch = {"type": "integer", "minimum": lo, "maximum": lo + rng.choice([0, 3, 100])}
+    else:
+        sch = {"type": "boolean"}
+    if sch["type"] != "string" and location in ("header", "cookie"):
+        return spell_nullable(rng, sch, p_true=0.04, p_false=0.4)  # nullable typed headers: known finding F11 (Unsatisfiable), kept rare
+    return spell_nullable(rng, sch)
+
+
 def gen_object_schema(rng, depth=0, resource=False):
     """Object schema; resource=True: the usual resource shape with 2-3 readOnly properties that are also listed in required."""
     pool = ["id", "created_at", "updated_at", "name", "tag", "meta", "n"]
@@ -850,8 +1042,11 @@ def gen_object_schema(rng, depth=0, resource=False):
             sub = gen_string_schema(rng) if not resource else {"type": "string", "maxLength": rng.choice([3, 5, 8])}
         else:
             sub = {"type": rng.choice(["integer", "boolean"])}
-        if name not in ro and "properties" not in sub and rng.random() < 0.25:
-            sub["nullable"] = True
+        if name not in ro:
+            if "properties" not in sub:
+                spell_nullable(rng, sub)
+            else:
+                spell_nullable(rng, sub, p_true=0.1, p_false=0.25)
         props[name] = sub
     ro = [x for x in order if x in ro]
     required = gen_required(rng, order, ro) if resource else [k for k in order if rng.random() < 0.5]
@@ -864,21 +1059,106 @@ def gen_object_schema(rng, depth=0, resource=False):
 
 
 def gen_document(rng):
+    """The LOGICAL document (Open API 3.0 spelling, every schema inline) the oracle reads, plus the dialect it will be written in."""
     params = []
     path = "/r"
+    dialect = rng.choice(["3.0", "3.0", "2.0"])
     resource = rng.random() < 0.5  # body-focused document: parameters kept trivial so that they cannot mask the body
     if rng.random() < 0.6:
         path = "/r/{id}"
-        params.append({"name": "id", "in": "path", "required": True, "schema": {"type": "string"} if resource else gen_string_schema(rng)})
+        params.append({"name": "id", "in": "path", "required": True, "schema": {"type": "string"} if resource else gen_param_schema(rng, "path")})
     if not resource:
         for loc, name in (("query", "q"), ("header", "X-A"), ("cookie", "c"), ("query", "r")):
+            if loc == "cookie" and dialect == "2.0":
+                continue
             if rng.random() < 0.5:
-                params.append({"name": name, "in": loc, "required": rng.random() < 0.6, "schema": gen_string_schema(rng)})
+                params.append({"name": name, "in": loc, "required": rng.random() < 0.6, "schema": gen_param_schema(rng, loc)})
     op = {"parameters": params, "responses": {"200": {"description": "ok"}}}
     if resource or rng.random() < 0.6:
         body = gen_object_schema(rng, 0, resource=resource)
+        spell_nullable(rng, body, p_true=0.1, p_false=0.25)
         op["requestBody"] = {"required": True, "content": {"application/json": {"schema": body}}}
-    return {"openapi": "3.0.2", "info": {"title": "t", "version": "1"}, "paths": {path: {"post": op}}}, path
+    return {"openapi": "3.0.2", "info": {"title": "t", "version": "1"}, "paths": {path: {"post": op}}}, path, dialect
+
+
+def rename_nullable(d):
+    if isinstance(d, dict):
+        return {("x-nullable" if k == "nullable" and not isinstance(v, dict) else k): rename_nullable(v) for k, v in d.items()}
+    if isinstance(d, list):
+        return [rename_nullable(x) for x in d]
+    return d
+
+
+def physical_document(rng, raw, path, dialect):
+    """What schemathesis is given: the logical document with some nested schemas moved behind local $ref, written as 3.0 or 2.0
+    (x-nullable, flattened non-body parameters, body parameter, definitions)."""
+    opdef = raw["paths"][path]["post"]
+    store = {}
+    prefix = "#/definitions/" if dialect == "2.0" else "#/components/schemas/"
+    body = None
+    if "requestBody" in opdef:
+        body = hoist_refs(rng, opdef["requestBody"]["content"]["application/json"]["schema"], store, prefix, prob=0.25)
+        if rng.random() < 0.25:
+            store[f"S{len(store)}"] = body
+            body = {"$ref": prefix + f"S{len(store) - 1}"}
+    if dialect == "2.0":
+        params = [{"name": p["name"], "in": p["in"], "required": p["required"], **p["schema"]} for p in opdef["parameters"]]
+        if body is not None:
+            params.append({"name": "payload", "in": "body", "required": True, "schema": body})
+        phys = {"swagger": "2.0", "info": {"title": "t", "version": "1"}, "consumes": ["application/json"],
+                "paths": {path: {"post": {"parameters": params, "responses": {"200": {"description": "ok"}}}}}}
+        if store:
+            phys["definitions"] = store
+        return rename_nullable(phys)
+    params = []
+    for p in opdef["parameters"]:
+        sch = p["schema"]
+        if rng.random() < 0.2:
+            store[f"S{len(store)}"] = sch
+            sch = {"$ref": prefix + f"S{len(store) - 1}"}
+        params.append({**p, "schema": sch})
+    op = {"parameters": params, "responses": {"200": {"description": "ok"}}}
+    if body is not None:
+        op["requestBody"] = {"required": True, "content": {"application/json": {"schema": body}}}
+    phys = {"openapi": "3.0.2", "info": {"title": "t", "version": "1"}, "paths": {path: {"post": op}}}
+    if store:
+        phys["components"] = {"schemas": store}
+    return phys
+
+
+def param_conforms(schema, value) -> bool:
+    """A generated parameter value read through the string coercion of its location (None is written as the text null,
+    integers / booleans may arrive as their text) against the declared schema."""
+    import jsonschema
+
+    nullable = schema.get("nullable") is True
+    t = schema.get("type")
+    if value is None or value == "null":
+        if nullable:
+            return True
+        if value is None or t != "string":
+            return False
+    if t == "integer":
+        if isinstance(value, bool):
+            return False
+        if isinstance(value, str):
+            if not re.fullmatch(r"-?[0-9]+", value):
+                return False
+            value = int(value)
+        if not isinstance(value, int):
+            return False
+        return schema.get("minimum", value) <= value <= schema.get("maximum", value)
+    if t == "boolean":
+        # headers / cookies carry str(True) = "True"; the property reads values through the coercion of the location, so both spellings count
+        return isinstance(value, bool) or (isinstance(value, str) and value in ("true", "false", "True", "False"))
+    plain = {k: v for k, v in schema.items() if k != "nullable"}
+    return isinstance(value, str) and jsonschema.Draft4Validator(plain).is_valid(value)
+
+
+def unwrap_nullable(gen):
+    if isinstance(gen, dict) and "anyOf" in gen and gen["anyOf"] and isinstance(gen["anyOf"][0], dict):
+        return gen["anyOf"][0]
+    return gen
 
 
 def read_only_names(sch) -> list:
@@ -890,6 +1170,7 @@ def object_levels(declared, value, generation, path=()):
     every nested object property that is present in the value."""
     if not isinstance(declared, dict) or "properties" not in declared or not isinstance(value, dict):
         return
+    generation = unwrap_nullable(generation)
     yield path, declared, value, generation
     for name, sub in declared["properties"].items():
         if name in value and isinstance(sub, dict) and "properties" in sub and not sub.get("readOnly"):
@@ -1005,8 +1286,12 @@ def stage_end_to_end(chk, n_docs, deadline=None):
         if deadline is not None and time.time() > deadline:
             stats["stopped_at_deadline"] = True
             break
-        raw, path = gen_document(rng)
-        opdef = raw["paths"][path]["post"]
+        logical, path, dialect = gen_document(rng)
+        raw = physical_document(rng, logical, path, dialect)  # `raw` is what the implementation sees and what failing inputs report
+        opdef = logical["paths"][path]["post"]
+        chk.count(f"e2e:dialect={dialect}")
+        if "nullable" in json.dumps(logical):
+            chk.count("e2e:documents-spelling-nullable")
         body_schema = opdef["requestBody"]["content"]["application/json"]["schema"] if "requestBody" in opdef else None
         if body_schema is not None and len(read_only_names(body_schema)) >= 2:
             stats["bodies_with_2plus_readonly"] += 1
@@ -1018,6 +1303,9 @@ def stage_end_to_end(chk, n_docs, deadline=None):
             cases = draw_cases(op, rng.getrandbits(32), 8)
         except Unsatisfiable:
             stats["unsatisfiable"] += 1
+            if any(p["in"] in ("header", "cookie") and p["schema"].get("type") != "string" and p["schema"].get("nullable") is True for p in opdef["parameters"]):
+                chk.fail("operation with a nullable integer/boolean header or cookie parameter reported Unsatisfiable", {"document": raw}, None, region="nullable_typed_header")
+                continue
             # (c) is the body to blame?  build a conforming value and ask the implementation's own generation schema
             if body_schema is not None and generation is not None:
                 w = conforming_witness(rng, body_schema)
@@ -1058,10 +1346,10 @@ def stage_end_to_end(chk, n_docs, deadline=None):
                     value = unquote(value)  # the path location percent-encodes inside the strategy (quote_all): read through that coercion
                 stats["parts_checked"] += 1
                 chk.seen({"e2e": [prm["schema"], value]}, True)
-                if not jsonschema.Draft4Validator(independent_convert(prm["schema"])).is_valid(value):
+                if not param_conforms(prm["schema"], value):
                     stats["failing_parts"] += 1
-                    region = string_failure_region(prm["schema"], value, pending)
-                    pending_fail.append((f"{prm['in']} parameter {prm['name']} does not conform", {"schema": prm["schema"], "value": value, "in": prm["in"]}, region, len(pending) - 1))
+                    region = string_failure_region(prm["schema"], value, pending) if prm["schema"].get("type") == "string" and value != "null" else None
+                    pending_fail.append((f"{prm['in']} parameter {prm['name']} does not conform", {"document": raw, "schema": prm["schema"], "value": value, "in": prm["in"]}, region, len(pending) - 1))
             if body_schema is None:
                 continue
             body = case.body
@@ -1153,6 +1441,137 @@ def classify_levels(chk, level_fail, stats):
 
 
 # ----------------------------------------------------------------------------------------
+# Generation settings: allow_x00 / codec
+# ----------------------------------------------------------------------------------------
+CONFIG_DOC = {
+    "openapi": "3.0.2",
+    "info": {"title": "t", "version": "1"},
+    "paths": {"/r/{id}": {"post": {
+        "parameters": [
+            {"name": "id", "in": "path", "required": True, "schema": {"type": "string"}},
+            {"name": "q", "in": "query", "required": True, "schema": {"type": "string"}},
+            {"name": "X-A", "in": "header", "required": True, "schema": {"type": "string"}},
+            {"name": "c", "in": "cookie", "required": True, "schema": {"type": "string"}},
+        ],
+        "requestBody": {"required": True, "content": {"application/json": {"schema": {"type": "object", "properties": {"s": {"type": "string"}}, "required": ["s"], "additionalProperties": False}}}},
+        "responses": {"200": {"description": "ok"}},
+    }}},
+}
+
+
+def draw_with_config(operation, config, seed_value, n):
+    from hypothesis import HealthCheck, Phase, given, seed, settings
+
+    out = []
+
+    @seed(seed_value)
+    @settings(max_examples=n, database=None, derandomize=False, deadline=None, suppress_health_check=list(HealthCheck), phases=[Phase.generate])
+    @given(operation.as_strategy(generation_config=config))
+    def collect(case):
+        out.append(case)
+
+    collect()
+    return out
+
+
+def config_violations(case, allow_x00: bool, codec: str):
+    """(location, text) of every generated string that breaks the configured restrictions."""
+    parts = [("path", unquote(str(v))) for v in (case.path_parameters or {}).values()]
+    parts += [("query", v) for v in (case.query or {}).values() if isinstance(v, str)]
+    parts += [("header", v) for v in (case.headers or {}).values() if isinstance(v, str)]
+    parts += [("cookie", v) for v in (case.cookies or {}).values() if isinstance(v, str)]
+    if isinstance(case.body, dict):
+        parts += [("body", v) for v in case.body.values() if isinstance(v, str)]
+    bad = []
+    for loc, text in parts:
+        if not allow_x00 and "\x00" in text:
+            bad.append((loc, "NUL", text))
+        try:
+            text.encode(codec)
+        except UnicodeEncodeError:
+            bad.append((loc, "codec", text))
+    return bad
+
+
+def stage_generation_config(chk, rounds):
+    """allow_x00=False / codec=ascii must hold for every generated string.  Fresh operation: only header/cookie values may break the
+    codec (known F9, and then every character must satisfy the Coq header_char_ok).  Operation already used under a permissive
+    configuration: violations that a FRESH operation under the same strict configuration does not show are the cache finding F10."""
+    import schemathesis
+    from schemathesis.generation import GenerationConfig
+
+    rng = chk.rng
+    stats = {"rounds": rounds, "draws": 0, "fresh_header_codec": 0, "fresh_other": 0, "reused_violations": 0}
+    header_chars = set()
+    for _ in range(rounds):
+        strict = GenerationConfig(allow_x00=False, codec="ascii")
+        fresh = schemathesis.openapi.from_dict(CONFIG_DOC)["/r/{id}"]["POST"]
+        fresh_bad_locations = set()
+        for case in draw_with_config(fresh, strict, rng.getrandbits(32), 40):
+            stats["draws"] += 1
+            chk.seen({"config": [case.query, dict(case.headers or {}), case.body]}, True)
+            for v in (case.headers or {}).values():
+                header_chars.update(ord(ch) for ch in v)
+            for loc, kind, text in config_violations(case, False, "ascii"):
+                fresh_bad_locations.add((loc, kind))
+                if loc in ("header", "cookie") and kind == "codec":
+                    stats["fresh_header_codec"] += 1
+                    chk.fail("codec=ascii is not respected by a generated header/cookie value", {"location": loc, "value": text}, None, region="header_codec_ignored")
+                else:
+                    stats["fresh_other"] += 1
+                    chk.fail(f"{kind} restriction not respected in {loc}", {"location": loc, "value": text, "config": "allow_x00=False, codec=ascii"})
+        reused = schemathesis.openapi.from_dict(CONFIG_DOC)["/r/{id}"]["POST"]
+        draw_with_config(reused, GenerationConfig(allow_x00=True, codec="utf-8"), rng.getrandbits(32), 5)
+        for case in draw_with_config(reused, strict, rng.getrandbits(32), 40):
+            stats["draws"] += 1
+            for loc, kind, text in config_violations(case, False, "ascii"):
+                if (loc, kind) in fresh_bad_locations:
+                    continue  # already explained on the fresh operation
+                stats["reused_violations"] += 1
+                chk.fail(f"{kind} restriction not respected in {loc} when the operation was used before under another configuration",
+                         {"location": loc, "value": text, "first_config": "allow_x00=True, codec=utf-8", "second_config": "allow_x00=False, codec=ascii"}, None,
+                         region="strategy_cache_ignores_config")
+    if header_chars:
+        cps = sorted(header_chars)
+        ok = core.coq_eval(IMPORTS, [f"forallb (header_char_ok false) {clist([f'{c}%N' for c in cps], 'N')}"])[0]
+        stats["distinct_header_code_points"] = len(cps)
+        if not ok:
+            chk.disagree("generated header characters vs Model_C01.header_char_ok (allow_x00=False)", cps[:50], "drawn", "model rejects some")
+    return stats
+
+
+def config_witness_fails(kind) -> bool:
+    import random
+
+    import schemathesis
+    from schemathesis.generation import GenerationConfig
+
+    r = random.Random(7)
+    strict = GenerationConfig(allow_x00=False, codec="ascii")
+    op = schemathesis.openapi.from_dict(CONFIG_DOC)["/r/{id}"]["POST"]
+    if kind == "cache_config":
+        draw_with_config(op, GenerationConfig(allow_x00=True, codec="utf-8"), r.getrandbits(32), 5)
+    bad = [b for case in draw_with_config(op, strict, r.getrandbits(32), 80) for b in config_violations(case, False, "ascii")]
+    if kind == "header_codec":
+        return any(loc in ("header", "cookie") and k == "codec" for loc, k, _ in bad)
+    return any(loc in ("query", "body", "path") for loc, k, _ in bad)
+
+
+def unsat_witness_fails(w) -> bool:
+    import schemathesis
+    from hypothesis.errors import Unsatisfiable
+
+    raw = w["document"]
+    path = next(iter(raw["paths"]))
+    try:
+        op = schemathesis.openapi.from_dict(raw)[path]["POST"]
+        draw_cases(op, 1, 5)
+    except Unsatisfiable:
+        return True
+    return False
+
+
+# ----------------------------------------------------------------------------------------
 def witness_fails(w) -> bool:
     kind = w.get("kind")
     if kind == "rewrite":
@@ -1166,6 +1585,10 @@ def witness_fails(w) -> bool:
         return impl[0] == "raises"
     if kind == "readonly":
         return readonly_witness_fails(w)
+    if kind == "unsat_document":
+        return unsat_witness_fails(w)
+    if kind in ("header_codec", "cache_config"):
+        return config_witness_fails(kind)
     return False
 
 
@@ -1240,11 +1663,14 @@ def run(chk: core.Check):
     chk.stages["correspondence_rewrite_properties"] = stage_rewrite_properties(chk, 500 if quick else 6000)
 
     # a broken proof / correspondence must try harder to find a concrete failing input, but within a wall-clock cap (quick: ~4 min in all)
+    chk.stages["correspondence_nullable"] = stage_nullable(chk, 400 if quick else 5000)
+
     boost = 10 if chk.broken else 1
     cap = (225 if quick else 1500) if chk.broken else None
     t0 = chk.t0
     chk.stages["search_rewriter"] = stage_rewrite_search(chk, rewritten, (6 if quick else 12) * boost, deadline=cap and t0 + cap * 0.45)
     chk.stages["search_string_level"] = stage_string_level(chk, (400 if quick else 6000) * boost, deadline=cap and t0 + cap * 0.6)
+    chk.stages["search_generation_config"] = stage_generation_config(chk, 3 if quick else 25)
     chk.stages["search_end_to_end"] = stage_end_to_end(chk, (45 if quick else 700) * boost, deadline=cap and t0 + cap)
 
     for f in chk.findings:
